@@ -256,3 +256,51 @@ func VC07_run() {
 		}
 	}
 }
+
+// VC07_race: two uploaders run concurrently over a stable set of files (every
+// interleaving of their file-system calls within the preemption bound): a week never gets
+// a second or different local report, and no file is counted twice.
+func VC07_race() {
+	vuReset()
+	vrt.ResetThreads()
+	end := vrt.DaysFromCivil(2024, 1, 7)
+	week := vrt.DateStr(end)
+	vos.AddFile(vuDir+"/mode", []byte([]string{"local", "on 2000-01-01"}[vrt.Choose(2)]))
+	u0 := vuUploader(&telemetry.UploadConfig{}, vuInstant(end+2, 100))
+	v1, v2 := vrt.U64(), vrt.U64()
+	vrt.Assume(v1 > 0 && v1 < 1<<60 && v2 > 0 && v2 < 1<<60)
+	p1 := vuAddCountFile(u0, "f0", end-7, end, c7builds[0], map[string]uint64{"c": v1})
+	p2 := vuAddCountFile(u0, "f1", end-7, end, c7builds[0], map[string]uint64{"c": v2})
+	for i := 0; i < 2; i++ {
+		u := vuUploader(&telemetry.UploadConfig{}, vuInstant(end+2, 100))
+		vuPreload(u, u0)
+		vrt.Go(func() { u.Run() })
+	}
+	vos.Events = nil
+	vrt.MaxPreempt = vrt.Param("preempt", 2)
+	vrt.RunThreads()
+	vrt.Assert(!vrt.Deadlock, "uploaders do not block each other")
+	local := vuDir + "/local/local." + week + ".json"
+	creates, writes := 0, 0
+	for _, ev := range vos.Events {
+		if ev.Path == local {
+			switch ev.Op {
+			case "create":
+				creates++
+			case "write":
+				writes++
+			}
+		}
+	}
+	vrt.Assert(creates == 1 && writes <= 1, "concurrent uploaders never produce a second or different report for a week")
+	nd := vos.Lookup(local)
+	vrt.Assert(nd != nil, "the week's report exists")
+	if nd != nil && len(nd.Data) > 0 {
+		r := vuReport(nd.Data)
+		vrt.Assert(r != nil && len(r.Programs) == 1, "one program report")
+		if r != nil && len(r.Programs) == 1 {
+			vrt.Assert(r.Programs[0].Counters["c"] == int64(v1+v2), "each file is counted exactly once")
+		}
+	}
+	vrt.Assert(!vuExists(p1) && !vuExists(p2), "the folded files are removed")
+}
